@@ -200,6 +200,13 @@ def plan(tier, seed):
             for T, R in ((0.25, 1), (3, 1), (2.5, 0)) if tier == "quick" else ((0.25, 2), (3, 2), (2.5, 1), (0.1, 1)):
                 specs.append({"mode": "exhaustive", "transport": transport, "framing": framing, "ka": ka, "T": T,
                               "R": R, "chunk": 0, "chunks": 1})
+    if tier != "quick":         # the same enumeration with every peer send deferred by 2 / 5 loop iterations
+        for transport, framing in (("udp", "rtu"), ("tcp", "tcp")):
+            for ka in (False, True):
+                for hops in (2, 5):
+                    for T, R in ((1, 1), (1, 2)):
+                        specs.append({"mode": "exhaustive", "transport": transport, "framing": framing, "ka": ka, "T": T, "R": R,
+                                      "chunk": 0, "chunks": 1, "hops": hops})
     # a silent request AFTER a request that went through any fault script (the budget must be whole again)
     for transport, framing in (("udp", "rtu"), ("tcp", "tcp")):
         for ka in (False, True):
@@ -229,6 +236,7 @@ def run_shard(spec):
             if i % spec["chunks"] != spec["chunk"]:
                 continue
             sc = scenario(spec["transport"], spec["framing"], spec["ka"], spec["T"], spec["R"], list(script))
+            sc["hops"] = spec.get("hops", 0)
             run_case(sc, part)
     elif mode == "then_silent":
         # (no symbol that can deliver something AFTER request 1 has ended: without a correlation id a late or
@@ -261,6 +269,7 @@ def run_shard(spec):
             connect = [rnd.choice(CONNECT + ["ok"] * 4) for _ in range(rnd.randrange(0, 4))] if transport == "tcp" else []
             sc = scenario(transport, framing, rnd.random() < 0.5, T, R, script, connect=connect, nreq=nreq)
             sc["after"] = rnd.choice(("drop", "now"))
+            sc["hops"] = rnd.choice((0, 0, 1, 2, 3, 5))       # arrival phase of everything the peer sends
             run_case(sc, part)
         part.exhaustive = True      # random part does not affect the exhaustive claim of the enumerated part
     return part
